@@ -286,9 +286,6 @@ func (e *Enc) evalExpr(x Expr, env *Env) (TV, error) {
 				c.vars[k] = v
 			}
 		}
-		if env.lookup != nil {
-			c.lookup = nil
-		}
 		return e.evalExpr(n.X, c)
 	case *Unary:
 		if n.Op == "&" {
